@@ -374,6 +374,7 @@ func (dec *Decoder) ResetReader(reader io.Reader) *Decoder {
 	dec.listGranted = 0
 	dec.head = 0
 	dec.tail = 0
+	dec.Error = nil // the error belongs to the input before
 	return dec
 }
 
@@ -385,6 +386,7 @@ func (dec *Decoder) ResetBytes(input []byte) *Decoder {
 	dec.listGranted = 0
 	dec.head = 0
 	dec.tail = len(input)
+	dec.Error = nil // the error belongs to the input before
 	return dec
 }
 
